@@ -209,10 +209,15 @@ def simplicial_closure(ctx):
         for k in range(0, min(len(universe), 5) + 1):
             for sub in itertools.combinations(universe, k):
                 want = frozenset(sub) in sets
-                for arg in (list(sub), set(sub), tuple(sub), frozenset(sub)):
-                    got = S.has_simplex(arg)
+                # containers, reversed order, and one-shot iterables (iterator, generator, dict keys view, map object)
+                shapes = (("list", lambda: list(sub)), ("set", lambda: set(sub)), ("tuple", lambda: tuple(sub)),
+                          ("frozenset", lambda: frozenset(sub)), ("reversed list", lambda: list(sub)[::-1]),
+                          ("iterator", lambda: iter(list(sub))), ("generator", lambda: (x for x in sub)),
+                          ("dict keys", lambda: dict.fromkeys(sub).keys()), ("map", lambda: map(lambda x: x, sub)))
+                for label, mk in shapes:
+                    got = S.has_simplex(mk())
                     if bool(got) != want:
-                        bad("has-simplex", f"has_simplex({arg!r}) = {got!r}, expected {want}")
+                        bad("has-simplex", f"has_simplex(<{label} of {list(sub)!r}>) = {got!r}, expected {want}")
                         break
     except Exception as ex:  # noqa: BLE001
         bad("api-raises", f"has_simplex raised {type(ex).__name__}: {ex}")
